@@ -38,7 +38,8 @@ theorem f0_inner_facts (c : String) (cp : ESV.Param) (inner : Stmt) (hc : isCtx 
 
 theorem simple_facts : ∀ (s : Stmt), cgSimple s = true → StmtFacts s ∧ simpleStmt s = true
   | .op n ps, h => by
-    obtain ⟨a, b⟩ := nameOK_split n (by simpa [cgSimple] using h)
+    simp only [cgSimple, Bool.and_eq_true] at h
+    obtain ⟨a, b⟩ := nameOK_split n h.1
     exact ⟨⟨by simp [okStmt, b], by simp [wStmt, a]⟩, rfl⟩
   | .inl c cp n ps, h => by
     simp only [cgSimple, Bool.and_eq_true] at h
@@ -47,7 +48,7 @@ theorem simple_facts : ∀ (s : Stmt), cgSimple s = true → StmtFacts s ∧ sim
   | .with_ c cp inner, h => by
     simp only [cgSimple, Bool.and_eq_true] at h
     exact ⟨f0_inner_facts c cp inner h.1 h.2, rfl⟩
-  | .ret, _ => ⟨⟨by simp [okStmt], by simp [wStmt]⟩, rfl⟩
+  | .ret, h => by simp [cgSimple] at h
   | .end_, _ => ⟨⟨by simp [okStmt], by simp [wStmt]⟩, rfl⟩
   | .hold, _ => ⟨⟨by simp [okStmt], by simp [wStmt]⟩, rfl⟩
   | .ite .., h => by simp [cgSimple] at h
@@ -68,7 +69,7 @@ theorem cg_stmt_facts (lv : Nat) : ∀ (s : Stmt), cgStmt lv s = true → StmtFa
   | .op n ps, h => (simple_facts _ (by simpa [cgStmt] using h)).1
   | .inl c cp n ps, h => (simple_facts _ (by simpa [cgStmt] using h)).1
   | .with_ c cp inner, h => (simple_facts _ (by simpa [cgStmt] using h)).1
-  | .ret, _ => (simple_facts _ rfl).1
+  | .ret, _ => ⟨by simp [okStmt], by simp [wStmt]⟩
   | .end_, _ => (simple_facts _ rfl).1
   | .hold, _ => (simple_facts _ rfl).1
   | .ite neg hdrs body elifs hasElse els, h => by
@@ -102,7 +103,7 @@ theorem cg_stmt_facts (lv : Nat) : ∀ (s : Stmt), cgStmt lv s = true → StmtFa
     have f1 := cg_cases_facts lv hdr.name cs true h.2
     obtain ⟨a, b⟩ := nameOK_split hdr.name h.1.1.1.2
     exact ⟨by simp [okStmt, b, f1.ok], by simp [wStmt, a, f1.w]⟩
-  | .macroCall .., h => by simp [cgStmt] at h
+  | .macroCall .., _ => ⟨by simp [okStmt], by simp [wStmt]⟩
 theorem cg_stmts_facts (lv : Nat) : ∀ (ss : Stmts), cgStmts lv ss = true → StmtsFacts ss
   | .nil, _ => ⟨rfl, rfl⟩
   | .cons s r, h => by
@@ -233,7 +234,7 @@ theorem frontGuard_of_cg (lv : Nat) (p : Program) (h : CgProg lv p) : FrontGuard
 
 /-! ### the graph of the program -/
 
-theorem graph_fold (fuel : Nat) (ms : List Src.Macro) (env : Src.Env) (fell : Nat) (Z : Nat) : ∀ (bodies : List Stmts),
+theorem graph_fold (fuel : Nat) (ms : List Src.Macro) (env : Src.Env) (fell : Nat) (Z : Nat → Prop) : ∀ (bodies : List Stmts),
     (∀ body ∈ bodies, ∀ k b, Grow Z b (Src.trStmts fuel ms env (toSrcStmts body) k b).1) → ∀ (acc : Src.B × List (Option Nat)),
     Grow Z acc.1 ((bodies.map fun b => (⟨some (toSrcStmts b)⟩ : Src.Routine)).foldl (graphStep fuel ms env fell) acc).1 ∧
     (∀ j, j < acc.2.length →
@@ -276,7 +277,7 @@ theorem graph_fold (fuel : Nat) (ms : List Src.Macro) (env : Src.Env) (fell : Na
         simp; omega
 
 /-- a node that changed while the routines were translated was changed last by one of them -/
-theorem graph_changer (fuel : Nat) (ms : List Src.Macro) (env : Src.Env) (fell : Nat) (Z : Nat) : ∀ (bodies : List Stmts),
+theorem graph_changer (fuel : Nat) (ms : List Src.Macro) (env : Src.Env) (fell : Nat) (Z : Nat → Prop) : ∀ (bodies : List Stmts),
     (∀ body ∈ bodies, ∀ k b, Grow Z b (Src.trStmts fuel ms env (toSrcStmts body) k b).1) → ∀ (acc : Src.B × List (Option Nat)) (i : Nat),
     i < (tbl acc.1).length →
     (tbl ((bodies.map fun b => (⟨some (toSrcStmts b)⟩ : Src.Routine)).foldl (graphStep fuel ms env fell) acc).1)[i]? ≠ (tbl acc.1)[i]? →
@@ -310,11 +311,11 @@ theorem graph_changer (fuel : Nat) (ms : List Src.Macro) (env : Src.Env) (fell :
 
 /-! ### the tables of the front end -/
 
-theorem compileBody_cg (cx : Cx) (fuel : Nat) (lv : Nat) (body : Stmts) (hg : cgStmts lv body = true)
-    (hu : ∀ n ∈ mlStmts body, n ∈ cx.defs) {s : St} {its : List LItem} {s' : St}
-    (hl : s.loops = []) (hc : s.cases = []) (h : compileBody [] true body s = .ok (its, s')) :
-    s'.loops = [] ∧ s'.cases = [] ∧ NamedLe s s' ∧ ∃ lb s1 ops s2, s1.loops = [] ∧ s1.cases = [] ∧ cStmts [] lb body s1 = .ok (ops, s2) ∧
-      NamedLe s2 s' ∧ (its = ops ∨ ∃ o, its = ops ++ [.op ⟨o, Gen.op_dummy_end, []⟩]) := by
+theorem compileBody_cg (cm : Macros) (term : Bool) (body : Stmts)
+    (hstk : ∀ lb s ops s2, cStmts cm lb body s = .ok (ops, s2) → SameStk s s2) {s : St} {its : List LItem} {s' : St}
+    (hl : s.loops = []) (hc : s.cases = []) (h : compileBody cm term body s = .ok (its, s')) :
+    s'.loops = [] ∧ s'.cases = [] ∧ NamedLe s s' ∧ ∃ lb s1 ops s2, s1.loops = [] ∧ s1.cases = [] ∧ cStmts cm lb body s1 = .ok (ops, s2) ∧
+      NamedLe s2 s' ∧ (its = ops ∨ (term = true ∧ ∃ o, its = ops ++ [.op ⟨o, Gen.op_dummy_end, []⟩])) := by
   unfold compileBody at h
   cases hv : vbadStmts body with
   | true => rw [hv] at h; simp [fail_ok] at h
@@ -324,36 +325,38 @@ theorem compileBody_cg (cx : Cx) (fuel : Nat) (lv : Nat) (body : Stmts) (hg : cg
   obtain ⟨lb, s1, h1, ops, s2, h2, h3⟩ := h
   simp only [Prod.mk.injEq] at h1
   obtain ⟨rfl, rfl⟩ := h1
-  have hp := cStmts_c cx fuel lv body s.lbc hg hu { } (envOK_empty cx) _ _ _ h2
+  have hp := hstk _ _ _ _ h2
   have l2 : s2.loops = [] := by rw [hp.loops]; exact hl
   have c2 : s2.cases = [] := by rw [hp.cases]; exact hc
   split at h3
-  · simp only [bind_ok, pure_ok] at h3
+  · rename_i ht
+    simp only [bind_ok, pure_ok] at h3
     obtain ⟨o, s3, h4, h5⟩ := h3
     simp only [Prod.mk.injEq] at h5
     obtain ⟨rfl, rfl⟩ := h5
     obtain ⟨rfl, rfl⟩ := genOp_spec h4
-    exact ⟨l2, c2, hp.named, s.lbc, (s.tickedLbl (vlStmts body)).tickedOp (voStmts body), ops, s2, hl, hc, h2, NamedLe.refl _, .inr ⟨_, rfl⟩⟩
+    exact ⟨l2, c2, hp.named, s.lbc, (s.tickedLbl (vlStmts body)).tickedOp (voStmts body), ops, s2, hl, hc, h2, NamedLe.refl _,
+      .inr ⟨by simp only [Bool.and_eq_true] at ht; exact ht.1, _, rfl⟩⟩
   · simp only [pure_ok, Prod.mk.injEq] at h3
     obtain ⟨rfl, rfl⟩ := h3
     exact ⟨l2, c2, hp.named, s.lbc, (s.tickedLbl (vlStmts body)).tickedOp (voStmts body), its, s', hl, hc, h2, NamedLe.refl _, .inl rfl⟩
 
-theorem compileRoutines_cg (cx : Cx) (fuel : Nat) (lv : Nat) : ∀ (rs : List Routine) (a : Nat) (t : Tables) (s : St) (t' : Tables) (s' : St),
-    seqFrom rs a = true → t.ops.length = a → t.infos.length = a → (∀ r ∈ rs, cgStmts lv r.body = true) →
-    (∀ r ∈ rs, ∀ n ∈ mlStmts r.body, n ∈ cx.defs) → s.loops = [] → s.cases = [] →
-    compileRoutines [] rs a t s = .ok (t', s') →
+theorem compileRoutines_cg (cm : Macros) : ∀ (rs : List Routine) (a : Nat) (t : Tables) (s : St) (t' : Tables) (s' : St),
+    seqFrom rs a = true → t.ops.length = a → t.infos.length = a →
+    (∀ r ∈ rs, ∀ lb s ops s2, cStmts cm lb r.body s = .ok (ops, s2) → SameStk s s2) → s.loops = [] → s.cases = [] →
+    compileRoutines cm rs a t s = .ok (t', s') →
     (∀ i, i < a → t'.ops[i]? = t.ops[i]?) ∧ NamedLe s s' ∧
     ∀ j r, rs[j]? = some r → ∃ its lb s1 ops s2, t'.ops[a + j]? = some its ∧ s1.loops = [] ∧ s1.cases = [] ∧
-      cStmts [] lb r.body s1 = .ok (ops, s2) ∧ NamedLe s2 s' ∧ (its = ops ∨ ∃ o, its = ops ++ [.op ⟨o, Gen.op_dummy_end, []⟩]) := by
+      cStmts cm lb r.body s1 = .ok (ops, s2) ∧ NamedLe s2 s' ∧ (its = ops ∨ ∃ o, its = ops ++ [.op ⟨o, Gen.op_dummy_end, []⟩]) := by
   intro rs
   induction rs with
   | nil =>
-    intro a t s t' s' _ _ _ _ _ _ _ h
+    intro a t s t' s' _ _ _ _ _ _ h
     simp only [compileRoutines, pure_ok, Prod.mk.injEq] at h
     obtain ⟨rfl, rfl⟩ := h
     exact ⟨fun _ _ => rfl, NamedLe.refl _, fun j r hj => by simp at hj⟩
   | cons r0 rs ih =>
-    intro a t s t' s' hseq hlo hli hall hu hl hc h
+    intro a t s t' s' hseq hlo hli hall hl hc h
     simp only [seqFrom, Bool.and_eq_true] at hseq
     have hid := routineId_seq r0 a hseq.1
     simp only [compileRoutines, hid] at h
@@ -361,7 +364,8 @@ theorem compileRoutines_cg (cx : Cx) (fuel : Nat) (lv : Nat) : ∀ (rs : List Ro
     · simp [fail_ok] at h
     · simp only [bind_ok] at h
       obtain ⟨its, s1, h1, h2⟩ := h
-      obtain ⟨l1, c1, n1, lb, sa, ops, sb, la, ca, hcs, nb, hits⟩ := compileBody_cg cx fuel lv r0.body (hall r0 (by simp)) (hu r0 (by simp)) hl hc h1
+      obtain ⟨l1, c1, n1, lb, sa, ops, sb, la, ca, hcs, nb, hits⟩ := compileBody_cg cm true r0.body (hall r0 (by simp)) hl hc h1
+      have hits : its = ops ∨ ∃ o, its = ops ++ [.op ⟨o, Gen.op_dummy_end, []⟩] := hits.imp id (fun h => h.2)
       have e1 : ((t.enlarge a).put a r0.info r0.coro its).ops = t.ops ++ [its] := by
         have : ((t.enlarge a).put a r0.info r0.coro its).ops = (t.enlarge a).ops.set a its := by cases r0.coro <;> rfl
         rw [this]
@@ -369,8 +373,7 @@ theorem compileRoutines_cg (cx : Cx) (fuel : Nat) (lv : Nat) : ∀ (rs : List Ro
         rw [← hlo]; simp
       have e2 : ((t.enlarge a).put a r0.info r0.coro its).infos.length = a + 1 := by
         simp [Tables.put, Tables.enlarge, hli]
-      obtain ⟨keep, nrest, rest⟩ := ih (a + 1) _ _ _ _ hseq.2 (by rw [e1]; simp [hlo]) e2 (fun x hx => hall x (by simp [hx]))
-        (fun x hx => hu x (by simp [hx])) l1 c1 h2
+      obtain ⟨keep, nrest, rest⟩ := ih (a + 1) _ _ _ _ hseq.2 (by rw [e1]; simp [hlo]) e2 (fun x hx => hall x (by simp [hx])) l1 c1 h2
       refine ⟨fun i hi => ?_, n1.trans nrest, fun j r hj => ?_⟩
       · rw [keep i (by omega), e1]
         exact List.getElem?_append_left (by omega)
